@@ -146,9 +146,9 @@ fn fitted_vertexing(c: &PointsCase, ev: &mut Ev) -> Outcome {
 
 fn run(r: &Run) {
     let t = r.tier;
-    r.prop("clustering_partition", t.pick(4_000, 200_000), || points_case(300), clustering);
+    r.prop("clustering_partition", t.pick(10_000, 400_000), || points_case(300), clustering);
     r.prop("clustering_partition_large", t.pick(32, 2_000), || points_case(2000), clustering);
-    r.prop("vertexing_partition", t.pick(6_000, 300_000), track_set, vertexing);
+    r.prop("vertexing_partition", t.pick(12_000, 600_000), track_set, vertexing);
     r.prop("vertexing_fitted_tracks", t.pick(300, 20_000), || points_case(200), fitted_vertexing);
 }
 
